@@ -288,6 +288,86 @@ theorem getDevName_noPanic (h : Option (List Str)) : NoPanic (getDevName true h)
   unfold getDevName
   split <;> exact noPanic_ok _
 
+/-- `rk` witnesses that the group graph has no cycle: members have a smaller rank than the group
+(what `checkGroupCycle` establishes before `diffConfig` goes on). -/
+def Ranked (groups : Str → Option (List Str)) (rk : Str → Nat) : Prop :=
+  ∀ n ms, groups n = some ms → ∀ m ∈ ms, rk m < rk n
+
+/-- `getObjListType` on an acyclic group graph: a stack of depth `rank + 2` suffices. -/
+theorem objListType_noPanic (groups : Str → Option (List Str)) (isAddr : Str → Bool) (rk : Str → Nat)
+    (hrk : Ranked groups rk) : ∀ (fuel : Nat) (l : List Str), (∀ e ∈ l, rk e + 1 < fuel) → 0 < fuel →
+    NoPanic (objListType groups isAddr fuel l)
+  | 0, _, _, h0 => by simp at h0
+  | fuel + 1, l, hl, _ => by
+    unfold objListType
+    simp only
+    split
+    · rename_i e
+      split
+      · exact noPanic_ok _
+      · split
+        · rename_i ms hg
+          have he : rk e + 1 < fuel + 1 := hl e (by simp)
+          refine NoPanic.bind (objListType_noPanic groups isAddr rk hrk fuel ms ?_ (by omega)) fun t => noPanic_ok _
+          intro m hm
+          have := hrk e ms hg m hm
+          omega
+        · exact noPanic_ok _
+    · exact noPanic_ok _
+
+/-- `markAddresses` on an acyclic group graph: a stack of depth `rank + 2` suffices. -/
+theorem markAddresses_noPanic (groups : Str → Option (List Str)) (rk : Str → Nat) (hrk : Ranked groups rk) :
+    ∀ (fuel : Nat) (l : List Str), (∀ e ∈ l, rk e + 1 < fuel) → 0 < fuel → NoPanic (markAddresses groups fuel l)
+  | 0, _, _, h0 => by simp at h0
+  | fuel + 1, [], _, _ => by unfold markAddresses; exact noPanic_ok _
+  | fuel + 1, e :: rest, hl, h0 => by
+    unfold markAddresses
+    refine NoPanic.bind ?_ fun _ =>
+      markAddresses_noPanic groups rk hrk (fuel + 1) rest (fun x hx => hl x (List.mem_cons_of_mem _ hx)) h0
+    split
+    · rename_i ms hg
+      have he : rk e + 1 < fuel + 1 := hl e (by simp)
+      refine markAddresses_noPanic groups rk hrk fuel ms ?_ (by omega)
+      intro m hm
+      have := hrk e ms hg m hm
+      omega
+    · exact noPanic_ok _
+termination_by fuel l => (fuel, l.length)
+
+/-- A group that is its own (only) member: whatever the stack size, `getObjListType` overflows. -/
+theorem objListType_cycle (isAddr : Str → Bool) : ∀ fuel : Nat,
+    objListType (fun n => if n = lit "g0" then some [lit "g0"] else none) isAddr fuel [lit "g0"] =
+      .panic (.explicit "fatal error: stack overflow")
+  | 0 => by simp [objListType]
+  | fuel + 1 => by
+    have ih := objListType_cycle isAddr fuel
+    unfold objListType
+    simp only
+    have h1 : ¬ (lit "g0" = lit "any") := by decide
+    simp only [h1, if_false, if_true]
+    rw [ih]
+    rfl
+
+/-- the same for the 2-cycle g0 = [g1], g1 = [g0]. -/
+theorem objListType_cycle2 (isAddr : Str → Bool) : ∀ fuel : Nat,
+    objListType (fun n => if n = lit "g0" then some [lit "g1"] else if n = lit "g1" then some [lit "g0"] else none)
+        isAddr fuel [lit "g0"] = .panic (.explicit "fatal error: stack overflow") ∧
+    objListType (fun n => if n = lit "g0" then some [lit "g1"] else if n = lit "g1" then some [lit "g0"] else none)
+        isAddr fuel [lit "g1"] = .panic (.explicit "fatal error: stack overflow")
+  | 0 => by simp [objListType]
+  | fuel + 1 => by
+    obtain ⟨ih0, ih1⟩ := objListType_cycle2 isAddr fuel
+    have h1 : ¬ (lit "g0" = lit "any") := by decide
+    have h2 : ¬ (lit "g1" = lit "any") := by decide
+    have h3 : ¬ (lit "g1" = lit "g0") := by decide
+    constructor
+    · unfold objListType
+      simp only [h1, if_false, if_true]
+      rw [ih1]; rfl
+    · unfold objListType
+      simp only [h2, h3, if_false, if_true]
+      rw [ih0]; rfl
+
 end NA.C20.PanOs
 
 namespace NA.C20.Backend
